@@ -109,6 +109,21 @@ Theorem frame_payload_bit_flip_rejected : forall hb p p' rest h,
 Proof. exact frame_payload_bit_flip_rejected_proved. Qed.
 Print Assumptions frame_payload_bit_flip_rejected.
 
+(* the configuration dimension: the flag that switches the payload checksum off is
+   MutualTLS and nothing else (where it comes from in NewTCPTransport and that every
+   frame call passes it on are regenerated facts), so whatever CAFile/CertFile/KeyFile
+   say, without mutual TLS a single-bit payload corruption is rejected *)
+Theorem transport_encrypted_iff_mutual_tls : forall c, transport_encrypted c = c_mutual_tls c.
+Proof. exact transport_encrypted_iff_proved. Qed.
+Print Assumptions transport_encrypted_iff_mutual_tls.
+Theorem frame_cfg_payload_bit_flip_rejected : forall c hb p p' rest h,
+  c_mutual_tls c = false ->
+  read_frame_cfg c (magic ++ hb ++ p ++ rest) = Delivered h p rest ->
+  length hb = hdr_len -> wf_bytes p -> Proofs.CRC32.differ_one_bit p p' ->
+  read_frame_cfg c (magic ++ hb ++ p' ++ rest) = Bad.
+Proof. exact frame_cfg_payload_bit_flip_rejected_proved. Qed.
+Print Assumptions frame_cfg_payload_bit_flip_rejected.
+
 (* non-vacuity: a concrete frame is delivered, its 1-byte-shorter prefix is not *)
 Example frame_witness :
   let f := write_message (mkHeader raft_type 0 0) [1; 2; 3] false in
